@@ -54,6 +54,14 @@ def generate(rng, tier):
                             if sum(1 for v in c["xin"] if lo <= v <= hi) < 2:
                                 c["xmin"], c["xmax"] = None, None
                                 c["desc"]["window"] = "none"
+                            if direction == 0 and X == 0 and Y == 1 and not lorch and not omitted and sorted(c["xin"]) == c["xin"]:
+                                c["xin"] = [v - c["xin"][0] for v in c["xin"]]      # this one always on a grid that starts at Q = 0, no window
+                                c["xmin"] = c["xmax"] = None
+                                c["int_dtype"] = [False, c["int_dtype"][1], c["int_dtype"][2]]
+                            if direction == 0 and X == 0 and not lorch and not omitted and c["xin"] and c["xin"][0] == 0.0 and c["xmin"] is None:
+                                c["yin"] = [float("inf")] + list(c["yin"][1:])      # a diverging S(0): 0 * inf is NaN, and stays NaN through the transform
+                                c["int_dtype"] = [c["int_dtype"][0], False, c["int_dtype"][2]]
+                                c["desc"]["data"] = str(c["desc"]["data"]) + "+inf at Q=0"
                             c["pass_flags"] = True
                             cases.append(c)
     return cases
